@@ -13,3 +13,4 @@ import PasskeyVerif.Props.C03
 import PasskeyVerif.Props.C09
 import PasskeyVerif.Props.C07
 import PasskeyVerif.Props.C06
+import PasskeyVerif.Props.C17
